@@ -24,7 +24,7 @@ fn xyb_of(px: &[[f32; 3]], w: usize, h: usize) -> Result<Vec<[f32; 3]>, &'static
     crate::util::guard2(|| xyb_of_inner(px, w, h))
 }
 fn xyb_of_inner(px: &[[f32; 3]], w: usize, h: usize) -> Result<Vec<[f32; 3]>, &'static str> {
-    let lin = LinearRgb::new(px.to_vec(), w, h).map_err(|_| "ctor")?;
+    let lin = crate::srcs::lin(px, w, h)?;
     let x = Xyb::from(lin);
     if x.width() != w || x.height() != h || x.data().len() != px.len() {
         return Err("shape");
@@ -35,7 +35,7 @@ fn lin_of_xyb(px: &[[f32; 3]], w: usize, h: usize) -> Result<Vec<[f32; 3]>, &'st
     crate::util::guard2(|| lin_of_xyb_inner(px, w, h))
 }
 fn lin_of_xyb_inner(px: &[[f32; 3]], w: usize, h: usize) -> Result<Vec<[f32; 3]>, &'static str> {
-    let x = Xyb::new(px.to_vec(), w, h).map_err(|_| "ctor")?;
+    let x = crate::srcs::xyb(px, w, h)?;
     let l = LinearRgb::from(x);
     if l.width() != w || l.height() != h || l.data().len() != px.len() {
         return Err("shape");
@@ -134,6 +134,25 @@ fn echo_image(src: &[[f32; 3]], f: impl Fn(&[[f32; 3]]) -> Result<Vec<[f32; 3]>,
     v
 }
 
+/// nearly neutral pixels at several levels: channels within 2^-6 .. 2^-23 (relative) of each other, both signs, equal and
+/// unequal offsets (the band between "exactly grey" and "visibly coloured" that lattices and random samples never hit)
+fn near_neutral(max1: bool) -> Vec<[f32; 3]> {
+    let mut v = Vec::new();
+    for &g in &[1.0f32, 0.999, 0.9, 0.5, 0.18, 0.02] {
+        for k in 6..=23 {
+            let d = g * 2f32.powi(-k);
+            let up = if max1 && g + d > 1.0 { -d } else { d };
+            v.push([g + up, g, g + up]);
+            v.push([g - d, g, g]);
+            v.push([g, g + up, g - d]);
+            v.push([g, g, g + up]);
+            v.push([g + up, g, g - d * 0.5]);
+            v.push([g - d * 0.855, g, g]);
+        }
+    }
+    v
+}
+
 // ------------------------------------------------------------------------------------------
 pub fn gen_c04(sh: &mut Shards, o: &Opts) -> serde_json::Value {
     let mut rng = Rng::new(o.seed, 0x0404);
@@ -168,6 +187,7 @@ pub fn gen_c04(sh: &mut Shards, o: &Opts) -> serde_json::Value {
     for p in [[-1.0, -1.0, -1.0], [0.5, 0.5, -0.6], [4.0, 4.0, 4.0], [0.0, 0.0, 0.0], [1.0, 1.0, 1.0], [4.0, -1.0, 4.0], [-1.0, 4.0, -1.0]] {
         px.push(p);
     }
+    px.extend(near_neutral(false));
     let n = px.len() as u64;
     for (at, w, h) in cut_images(px.len(), 1) {
         let img = &px[at..at + w * h];
@@ -199,6 +219,7 @@ pub fn gen_c05(sh: &mut Shards, o: &Opts) -> serde_json::Value {
     for _ in 0..nr {
         px.push([rng.f32_in(0.0, 1.0), rng.f32_in(0.0, 1.0), rng.f32_in(0.0, 1.0)]);
     }
+    px.extend(near_neutral(true));
     let n = px.len() as u64;
     for (at, w, h) in cut_images(px.len(), 2) {
         let img = &px[at..at + w * h];
@@ -226,7 +247,7 @@ fn prim_to709(c: u8, px: &[[f32; 3]], w: usize, h: usize) -> Result<Vec<[f32; 3]
     crate::util::guard2(|| prim_to709_inner(c, px, w, h))
 }
 fn prim_to709_inner(c: u8, px: &[[f32; 3]], w: usize, h: usize) -> Result<Vec<[f32; 3]>, &'static str> {
-    let rgb = Rgb::new(px.to_vec(), w, h, tc(8), cp(c)).map_err(|_| "ctor")?;
+    let rgb = crate::srcs::rgb(px, w, h, tc(8), cp(c))?;
     match LinearRgb::try_from(rgb) {
         Ok(l) => {
             if l.width() != w || l.height() != h || l.data().len() != px.len() {
@@ -241,7 +262,7 @@ fn prim_from709(c: u8, px: &[[f32; 3]], w: usize, h: usize) -> Result<Vec<[f32; 
     crate::util::guard2(|| prim_from709_inner(c, px, w, h))
 }
 fn prim_from709_inner(c: u8, px: &[[f32; 3]], w: usize, h: usize) -> Result<Vec<[f32; 3]>, &'static str> {
-    let lin = LinearRgb::new(px.to_vec(), w, h).map_err(|_| "ctor")?;
+    let lin = crate::srcs::lin(px, w, h)?;
     match Rgb::try_from((lin, tc(8), cp(c))) {
         Ok(r) => {
             if r.width() != w || r.height() != h || r.data().len() != px.len() {
@@ -333,7 +354,7 @@ fn hsl_of(px: &[[f32; 3]], w: usize, h: usize) -> Result<Vec<[f32; 3]>, &'static
     crate::util::guard2(|| hsl_of_inner(px, w, h))
 }
 fn hsl_of_inner(px: &[[f32; 3]], w: usize, h: usize) -> Result<Vec<[f32; 3]>, &'static str> {
-    let lin = LinearRgb::new(px.to_vec(), w, h).map_err(|_| "ctor")?;
+    let lin = crate::srcs::lin(px, w, h)?;
     let x = Hsl::from(lin);
     if x.width() != w || x.height() != h || x.data().len() != px.len() {
         return Err("shape");
@@ -344,7 +365,7 @@ fn lin_of_hsl(px: &[[f32; 3]], w: usize, h: usize) -> Result<Vec<[f32; 3]>, &'st
     crate::util::guard2(|| lin_of_hsl_inner(px, w, h))
 }
 fn lin_of_hsl_inner(px: &[[f32; 3]], w: usize, h: usize) -> Result<Vec<[f32; 3]>, &'static str> {
-    let x = Hsl::new(px.to_vec(), w, h).map_err(|_| "ctor")?;
+    let x = crate::srcs::hsl(px, w, h)?;
     let l = LinearRgb::from(x);
     if l.width() != w || l.height() != h || l.data().len() != px.len() {
         return Err("shape");
